@@ -1444,6 +1444,7 @@ func runC05(ctx *Ctx) {
 	// ---------- (b') slice d05: integer-only cases at mixed precisions (the bridge), nullness within one chain
 	c05d05Integers(ctx, rnd)
 	c05d05Chains(ctx, rnd, &scope)
+	c05d05RawUnknown(ctx, rnd, &scope)
 
 	// ---------- (c) prefixes
 	c05Prefixes(ctx, &scope)
